@@ -59,7 +59,9 @@ _FLOOR_Q.update(_KEPT)
 _NULLOUT = {'actual_output_pointer_null:raw': 600, 'actual_output_pointer_null:typed': 600, 'null_output_pointer_pairs:agree_passing': 400,
             'null_output_pointer_pairs:agree_failing': 800, 'c_copy_fn_call:memcpy:dst-null': 150, 'c_copy_fn_call:xor:dst-null': 100}
 _FLOOR_Q.update(_NULLOUT)
+_FLOOR_Q.update({'crash_method_invocations_with_crashOnFailure_left_on:c': 150, 'crash_method_invocations_with_crashOnFailure_left_on:cpp': 150, 'scenarios_with_crash_method_invoked_by_both_after_crashOnFailure_through_a_scope': 100})
 _FLOOR_T = dict((s, 200) for s in _SLOTS)
+_FLOOR_T.update({'crash_method_invocations_with_crashOnFailure_left_on:c': 1500, 'crash_method_invocations_with_crashOnFailure_left_on:cpp': 1500, 'scenarios_with_crash_method_invoked_by_both_after_crashOnFailure_through_a_scope': 1000})
 _FLOOR_T.update((k, 2 * v) for k, v in _KEPT.items())
 _FLOOR_T.update((k, 2 * v) for k, v in _NULLOUT.items())
 _FLOOR_T.update((k, 20) for k in _ADAPT)
@@ -79,7 +81,7 @@ P = dict(
     rule='case = one scenario (list of statements: expectations with typed parameters / output parameters / return value, actual calls with '
          'return-value getters at call level and support level, strict order, ignore/disable/enable, data store, check, clear, comparators and '
          'copiers drawn from the function families of custom_type_adaptor_table, actual-call chains in which the handle is kept while the data store / expectedCallsLeft '
-         'of another (or the same) scope is consulted before a further parameter or before a return-value getter, the actual call passing the expectation\'s own object or its twin, typed outputs received into the returned object, NULL passed as the actual output pointer (45 % of the output parameters under whose name no expectation of the scenario returns bytes), crashOnFailure) executed through both interfaces. Sections: forwarder_table (enumerated: every parameter / return type x '
+         'of another (or the same) scope is consulted before a further parameter or before a return-value getter, the actual call passing the expectation\'s own object or its twin, typed outputs received into the returned object, NULL passed as the actual output pointer (45 % of the output parameters under whose name no expectation of the scenario returns bytes), crashOnFailure switched off, switched on and off again, or switched on through any scope and LEFT on - every execution runs with a counting crash method that returns, and its invocations are events of the compared logs) executed through both interfaces. Sections: forwarder_table (enumerated: every parameter / return type x '
          'boundary lattice x getter x level, output-parameter kinds, tolerance, support-table operations), data_store_table (enumerated), '
          'support_getters_after_ignored_call (enumerated; defect D19, repaired in /repo, its reversal must fire here), custom_type_adaptor_table (enumerated: every member of a '
          'family of user equality functions - structural, non-reflexive, address identity, ordered/asymmetric, never, always with a zero low byte - x every ordered pair of '
